@@ -1001,8 +1001,13 @@ func callBuiltin(caller *frame, callpos token.Pos, fn *ssa.Builtin, args []value
 			}
 			return arg0
 		}
-		// append([]T, ...[]T) []T
-		return append(args[0].([]value), args[1].([]value)...)
+		// append([]T, ...[]T) []T  (struct/array elements are copied by value)
+		src := args[1].([]value)
+		dst := args[0].([]value)
+		for _, e := range src {
+			dst = append(dst, cloneVal(e))
+		}
+		return dst
 
 	case "copy": // copy([]T, []T) int or copy([]byte, string) int
 		src := args[1]
@@ -1010,7 +1015,12 @@ func callBuiltin(caller *frame, callpos token.Pos, fn *ssa.Builtin, args []value
 			params := fn.Type().(*types.Signature).Params()
 			src = conv(params.At(0).Type(), params.At(1).Type(), src)
 		}
-		return copy(args[0].([]value), src.([]value))
+		srcv := src.([]value)
+		tmp := make([]value, len(srcv))
+		for k, e := range srcv {
+			tmp[k] = cloneVal(e)
+		}
+		return copy(args[0].([]value), tmp)
 
 	case "close": // close(chan T)
 		close(args[0].(chan value))
@@ -1563,4 +1573,24 @@ func fandbits[F floaty](x, y F) F {
 		*(*uint64)(unsafe.Pointer(&x)) &= *(*uint64)(unsafe.Pointer(&y))
 	}
 	return x
+}
+
+// cloneVal copies struct and array values (which are reference types in this
+// interpreter) so that slice elements are not aliased by append/copy.
+func cloneVal(v value) value {
+	switch x := v.(type) {
+	case structure:
+		out := make(structure, len(x))
+		for k, e := range x {
+			out[k] = cloneVal(e)
+		}
+		return out
+	case array:
+		out := make(array, len(x))
+		for k, e := range x {
+			out[k] = cloneVal(e)
+		}
+		return out
+	}
+	return v
 }
